@@ -203,6 +203,14 @@ class Gen:
         if x < 0.6:
             src = r.choice(INTS + ["bool"])
             return "(%s as %s)" % (paren(self.expr(src, env, d - 1)), t)
+        if x < 0.62 and is_int(t):
+            muts = [(n, mt) for (n, mt, m) in env if m and mt == t]
+            if muts and self.rng.random() < 0.5:
+                # a multiplication by a small literal whose other operand has an effect (the compiler rewrites x * c)
+                mn, _ = self.rng.choice(muts)
+                c = self.rng.choice([2, 3, 5])
+                blk = "({ %s = %s; %s })" % (mn, self.expr(t, env, 1), mn)
+                return "(%s * %d%s)" % (blk, c, t) if self.rng.random() < 0.5 else "(%d%s * %s)" % (c, t, blk)
         if x < 0.66 and is_signed(t):
             return "(-%s)" % paren(self.expr(t, env, d - 1))
         if x < 0.7:
